@@ -426,11 +426,13 @@ func init() {
 	register(&Property{
 		ID:          "C03",
 		Level:       "other",
-		Explanation: "Decides the structural necessary conditions of 'a built certificate's new exit root follows from its bridge exits': C03-leaf-agree — the byte layout of agglayer/types.BridgeExit.Hash (what the Agglayer appends to its tree), composed with the field map of getBridgeExits and with convertBridgeMetadata / the empty-metadata substitution (emptyBytesHash = keccak of nothing), is the layout of bridgesync.Bridge.Hash (what the node appended, C01-leaf): same seven parts, widths and order; C03-order — both conversions are order-preserving maps (one append per element of a range over the input, no reordering call), and the inputs come from queryBlockRange whose statement (constant-folded, tokenised) bounds block_num by [$1=fromBlock, $2=toBlock] and orders by block_num, block_pos ascending; C03-newler — NewLocalExitRoot is the exit root recorded for MaxDepositCount (= DepositCount of the LAST bridge) or the previous LER when there are no bridges, and the certificate literal takes height / previous LER / exits / network from the matching sources; C03-meta — metadata arguments (FromBlock, uint32(ToBlock-FromBlock), CreatedAt, type) and writer/reader agreement of the metadata codec (slot table extracted from PutUintNN / UintNN calls, big-endian, disjoint). Not decided: that the stored root for that deposit count is the right one (C01) and the choice of range (C02/C17). Added after round 7: C03-fk (foreign keys on every pooled connection, shared with C04), C03-recover (range recovered from an Agglayer header, shared with C13).",
+		Explanation: "Decides the structural necessary conditions of 'a built certificate's new exit root follows from its bridge exits': C03-leaf-agree — the byte layout of agglayer/types.BridgeExit.Hash (what the Agglayer appends to its tree), composed with the field map of getBridgeExits and with convertBridgeMetadata / the empty-metadata substitution (emptyBytesHash = keccak of nothing), is the layout of bridgesync.Bridge.Hash (what the node appended, C01-leaf): same seven parts, widths and order; C03-order — both conversions are order-preserving maps (one append per element of a range over the input, no reordering call), and the inputs come from queryBlockRange whose statement (constant-folded, tokenised) bounds block_num by [$1=fromBlock, $2=toBlock] and orders by block_num, block_pos ascending; C03-newler — NewLocalExitRoot is the exit root recorded for MaxDepositCount (= DepositCount of the LAST bridge) or the previous LER when there are no bridges, and the certificate literal takes height / previous LER / exits / network from the matching sources; C03-meta — metadata arguments (FromBlock, uint32(ToBlock-FromBlock), CreatedAt, type) and writer/reader agreement of the metadata codec (slot table extracted from PutUintNN / UintNN calls, big-endian, disjoint). Not decided: that the stored root for that deposit count is the right one (C01) and the choice of range (C02/C17). Added after round 7: C03-fk (foreign keys on every pooled connection, shared with C04), C03-recover (range recovered from an Agglayer header, shared with C13). Added after round 8: C03-range (shared with C02-range) and C03-calldata (shared with C20-abi/C20-match).",
 		Rules: []Rule{
 			{ID: "C03-leaf-agree", Floor: 11, Run: c03LeafAgree, Text: "[LAYOUT]+[FIELDMAP] BridgeExit.Hash ∘ getBridgeExits ≡ Bridge.Hash"},
 			{ID: "C03-fk", Floor: 4, Run: shared("C03-fk", c04FK), Text: "(shared with C04-fk) foreign keys are enabled on every pooled connection: a reorg cascades to bridge/claim rows whichever connection runs it"},
 			{ID: "C03-recover", Floor: 8, Run: shared("C03-recover", c13Recover), Text: "(shared with C13-recover) the block range recovered from an Agglayer header is the range that certificate covered"},
+			{ID: "C03-range", Floor: 9, Run: shared("C03-range", c02LastSent), Text: "(shared with C02-range) a retry re-sends the failed range from its first block"},
+			{ID: "C03-calldata", Floor: 24, Run: shared("C03-calldata", c20ABI, c20Match), Text: "(shared with C20-abi/C20-match) the leaf type of an imported exit comes from the call that matched the claim"},
 			{ID: "C03-order", Floor: 5, Run: c03Order, Text: "order-preserving conversions over an ordered, bounded range query"},
 			{ID: "C03-newler", Floor: 9, Run: c03NewLER, Text: "[PROV] new LER by highest deposit count / previous LER; certificate literal"},
 			{ID: "C03-prev", Floor: 5, Run: shared("C03-prev", c02Next), Text: "(shared with C02-next) previous LER / height derivation from the last certificate's state"},
